@@ -428,7 +428,7 @@ class AsyncTask(futures.FutureBase):
         # same try/except deal as with _pause_contexts, but in this case
         # we re-raise the first exception raised.
         error = None
-        for ctx in self._contexts.values():
+        for ctx in list(self._contexts.values()):
             try:
                 ctx.resume()
             except BaseException as e:
